@@ -103,7 +103,7 @@ package bytecode
 //@   ensures ops_then_addr: (forall i int :: 0 <= i && i < len(ops) ==> result[i] == ops[i]) && (forall i int :: 0 <= i && i < len(addr) ==> result[len(ops) + i] == addr[i])
 
 // opExpand as initialised by the package (assumed: package initialisers have run).
-//@ pure func opexpand_entry(k uint32, n int, b0 byte, b1 byte) bool = has(opExpand, k) && len(opExpand[k]) == n && opExpand[k][0] == b0 && (n == 2 ==> opExpand[k][1] == b1) && arr(opExpand[k]) != textref
+//@ pure func opexpand_entry(k uint32, n int, b0 byte, b1 byte) bool = has(opExpand, k) && len(opExpand[k]) == n && opExpand[k][0] == b0 && (n == 2 ==> opExpand[k][1] == b1) && arr(opExpand[k]) != textref && alive(arr(opExpand[k]))
 //@ pure func opexpand_wf() bool = opExpand != nil && (forall k uint32 :: has(opExpand, k) == (k == 0x74 || k == 0x76 || k == 0x7F || k == 0xEB))
 //@   | && opexpand_entry(0x74, 2, 0x0F, 0x84) && opexpand_entry(0x76, 2, 0x0F, 0x86) && opexpand_entry(0x7F, 2, 0x0F, 0x8F) && opexpand_entry(0xEB, 1, 0xE9, 0)
 //@ pure func fits8(x int) bool = -128 <= x && x <= 127
